@@ -8,7 +8,7 @@
 // built from the input has a symbolic length).  Making only the line kinds symbolic does not help: after the first
 // conditional the read position is symbolic and with it every command string (3 lines: > 10 min, also with
 // cbmc --paths).  The files are therefore enumerated by a concrete depth-first loop that CBMC unrolls inside the
-// query (ill-nested prefixes are pruned); NPARTS residue classes = NPARTS catalogue entries.
+// query, over a generated table of the well-nested files; NPARTS residue classes = NPARTS catalogue entries.
 //
 // CHARLEVEL=0 (token level): get / skip_whitespace / skip_comment / get_preprocessor_command / get_preprocessor_args
 //   are replaced by a line-level reader that delivers '#', the command word and the argument string of line i (or the
@@ -248,30 +248,22 @@ static void __attribute__((noinline)) run_file(CPPPreprocessor *pp) {
 }
 
 // ---- enumeration of the well-nested files ------------------------------------------------------------------------------
-static int leaf_index;
-static int leaves_run;
-static void gen(CPPPreprocessor *pp, int i, int d, unsigned seen_else) {
-  if (i == NLINES) {
-    if (leaf_index % NPARTS == PART) { run_file(pp); leaves_run++; }
-    leaf_index++;
-    return;
-  }
-  for (int k = 0; k < K_COUNT; k++) {
-    int nd = d; unsigned ns = seen_else;
-    if (is_open(k)) { ns &= ~(1u << d); nd = d + 1; }
-    else if (is_elif(k)) { if (d == 0 || ((seen_else >> (d - 1)) & 1)) continue; }
-    else if (k == K_ELSE) { if (d == 0 || ((seen_else >> (d - 1)) & 1)) continue; ns |= 1u << (d - 1); }
-    else if (k == K_ENDIF) { if (d == 0) continue; nd = d - 1; }
-    if (nd > NLINES - 1 - i) continue;               // could not be closed any more
-    kind[i] = k;
-    gen(pp, i + 1, nd, ns);
-  }
-}
+// The table of all well-nested files of NLINES lines is generated by harness/c09_gen_files.py (enumerating inside the
+// query by recursion costs more symbolic-execution time than the code under test).
+#include "c09_files.h"
+#define CAT2(a, b) a##b
+#define CAT(a, b) CAT2(a, b)
+#define NFILES CAT(C09_NFILES_, NLINES)
+#define FILES CAT(C09_FILES_, NLINES)
 
 extern "C" void harness_c09_cond() {
   CPPPreprocessor *pp = new CPPPreprocessor;
-  leaf_index = 0; leaves_run = 0;
-  gen(pp, 0, 0, 0);
+  int leaves_run = 0;
+  for (int f = PART; f < NFILES; f += NPARTS) {
+    for (int i = 0; i < NLINES; i++) kind[i] = FILES[f][i];
+    run_file(pp);
+    leaves_run++;
+  }
   ASSERT(leaves_run > 0, "C09 harness: this residue class is not empty");
   WITNESS();
 }
